@@ -3,6 +3,7 @@ mod enc;
 mod handler;
 mod kern;
 mod lab;
+mod opimpl;
 mod planops;
 mod sched;
 mod sqlrun;
